@@ -2252,3 +2252,826 @@ Module RepInvSamples.
     intros [rw H]. pose proof (RepInv_last_bound rw _ H) as S. vm_compute in S. discriminate S.
   Qed.
 End RepInvSamples.
+
+(* ================================================================== *)
+(* Part F. Every queued MsgAppend is a contiguous batch                  *)
+(* ================================================================== *)
+(* C13's append_entries_contiguous / maybe_send_append_batched_wf speak about one call
+   of maybe_send_append under the log invariant.  With LI available at every
+   intermediate state this becomes an invariant of the outbound queue:
+   [AppOK r]: every MsgAppend in r_msgs has its entries numbered consecutively from
+   m_index + 1 (batching on or off). *)
+Definition app_ok (m : msg) : Prop :=
+  m_type m = MsgAppend -> contiguous_from (m_index m + 1) (m_entries m).
+Definition AppOK (r : raft) : Prop := Forall app_ok (r_msgs r).
+
+(* for the functions that leave the log alone *)
+Definition AL (r : raft) : Prop := LogInv (r_log r) /\ AppOK r.
+
+Lemma LI_LogInv rw r : LI rw r -> LogInv (r_log r).
+Proof. apply RepInv_LogInv. Qed.
+
+Lemma AppOK_same r r' : r_msgs r' = r_msgs r -> AppOK r -> AppOK r'.
+Proof. unfold AppOK. intros ->. exact (fun H => H). Qed.
+
+Lemma AL_same r r' : r_log r' = r_log r -> r_msgs r' = r_msgs r -> AL r -> AL r'.
+Proof. unfold AL, AppOK. intros -> ->. exact (fun H => H). Qed.
+
+Lemma AppOK_snoc (r : raft) m : app_ok m -> AppOK r -> AppOK (r <| r_msgs := r_msgs r ++ [m] |>).
+Proof.
+  intros Hm H. unfold AppOK. cbn. apply Forall_app. split; [exact H|]. constructor; [exact Hm|constructor].
+Qed.
+
+Lemma send_AppOK r m r' : send r m = Ok r' -> app_ok m -> AppOK r -> AppOK r'.
+Proof.
+  intros H Hm HI. destruct (send_exact _ _ _ H) as (m' & -> & Ht & _ & _ & Hi & He & _).
+  apply AppOK_snoc; [|exact HI]. unfold app_ok in *. rewrite Ht, Hi, He. exact Hm.
+Qed.
+
+Lemma send_AL r m r' : send r m = Ok r' -> app_ok m -> AL r -> AL r'.
+Proof.
+  intros H Hm [A B]. split; [rewrite (send_log _ _ _ H); exact A|eapply send_AppOK; eassumption].
+Qed.
+
+Lemma na_ok m : m_type m <> MsgAppend -> app_ok m.
+Proof. intros H E. contradiction. Qed.
+
+Ltac na := apply na_ok; cbn; discriminate.
+
+Lemma maybe_send_append_AL r to pr ae r' pr' b :
+  maybe_send_append r to pr ae = Ok (r', pr', b) -> AL r -> AL r'.
+Proof.
+  intros H [HL HA]. split; [rewrite (maybe_send_append_log _ _ _ _ _ _ _ H); exact HL|].
+  destruct (maybe_send_append_cases _ _ _ _ _ _ _ H) as [(_ & -> & _)|(_ & _ & C)]; [exact HA|].
+  destruct C as [(_ & s & _ & _ & -> & _)|[(_ & Hnx & t & ents & _ & He & _ & -> & _)|
+                 (_ & _ & Hnx & t & ents & msgs' & _ & He & _ & Hb & ->)]].
+  - apply AppOK_snoc; [na|exact HA].
+  - apply AppOK_snoc; [|exact HA]. intros _. cbn.
+    destruct (log_entries_spec _ _ _ _ HL He) as (Hc & _).
+    replace (next_idx pr - 1 + 1) with (next_idx pr) by lia. exact Hc.
+  - destruct (log_entries_spec _ _ _ _ HL He) as (Hc & Hf & _).
+    destruct (try_batching_contiguous _ _ _ _ _ _ _ _ Hb Hc Hf)
+      as (pre & m & post & A & _ & Ht & _ & F & _ & _ & _ & K & _).
+    unfold AppOK in *. cbn. rewrite F. rewrite A in HA.
+    apply Forall_app in HA. destruct HA as [HA1 HA2]. inversion HA2 as [|? ? Hm HA3]; subst.
+    apply Forall_app. split; [exact HA1|]. constructor; [|exact HA3].
+    intros _. change (m_index (merged r m ents)) with (m_index m).
+    destruct ents as [|e0 et].
+    + change (m_entries (merged r m [])) with (m_entries m ++ []). rewrite app_nil_r. exact (Hm Ht).
+    + exact (proj2 (K ltac:(discriminate) (Hm Ht))).
+Qed.
+
+Lemma put_pr_AL r id p : AL r -> AL (put_pr r id p).
+Proof. exact (fun H => H). Qed.
+
+Lemma send_append_to_AL r to r' : send_append_to r to = Ok r' -> AL r -> AL r'.
+Proof.
+  unfold send_append_to. intros H HI. destruct (get_pr r to); [|discriminate].
+  inv_bind H. destruct x as [[r1 pr1] b]. inversion H; subst.
+  apply put_pr_AL. eapply maybe_send_append_AL; eassumption.
+Qed.
+
+Lemma send_append_aggressively_loop_AL fuel : forall r to pr r' pr',
+  send_append_aggressively_loop fuel r to pr = Ok (r', pr') -> AL r -> AL r'.
+Proof.
+  induction fuel as [|f IH]; intros r to pr r' pr' H HI; cbn [send_append_aggressively_loop] in H;
+    [discriminate|].
+  inv_bind H. destruct x as [[r1 pr1] b]. pose proof (maybe_send_append_AL _ _ _ _ _ _ _ Hx HI) as H1.
+  destruct b; [eapply IH; eassumption|inversion H; subst; exact H1].
+Qed.
+
+Lemma send_append_aggressively_AL r to r' : send_append_aggressively r to = Ok r' -> AL r -> AL r'.
+Proof.
+  unfold send_append_aggressively. intros H HI. destruct (get_pr r to); [|discriminate].
+  inv_bind H. destruct x as [r1 pr1]. inversion H; subst.
+  apply put_pr_AL. eapply send_append_aggressively_loop_AL; eassumption.
+Qed.
+
+Lemma for_each_peer_AL (f : raft -> N -> Res raft) :
+  (forall r id r', f r id = Ok r' -> AL r -> AL r') ->
+  forall ids self r r', for_each_peer ids self f r = Ok r' -> AL r -> AL r'.
+Proof.
+  intros Hf ids self. induction ids as [|id rest IH]; intros r r' H HI; cbn [for_each_peer] in H.
+  - inversion H; subst. exact HI.
+  - destruct (id =? self); [eapply IH; eassumption|].
+    inv_bind H. eapply IH; [exact H|]. eapply Hf; eassumption.
+Qed.
+
+Lemma bcast_append_AL r r' : bcast_append r = Ok r' -> AL r -> AL r'.
+Proof. unfold bcast_append. apply for_each_peer_AL. apply send_append_to_AL. Qed.
+
+Lemma send_heartbeat_AL r to pr ctx r' : send_heartbeat r to pr ctx = Ok r' -> AL r -> AL r'.
+Proof.
+  unfold send_heartbeat. intros H HI. eapply send_AL; [exact H| |exact HI].
+  destruct ctx; na.
+Qed.
+
+Lemma bcast_heartbeat_with_ctx_AL r ctx r' : bcast_heartbeat_with_ctx r ctx = Ok r' -> AL r -> AL r'.
+Proof.
+  unfold bcast_heartbeat_with_ctx. apply for_each_peer_AL.
+  intros r0 id r1 H HI. destruct (get_pr r0 id); [eapply send_heartbeat_AL; eassumption|discriminate].
+Qed.
+
+Lemma bcast_heartbeat_AL r r' : bcast_heartbeat r = Ok r' -> AL r -> AL r'.
+Proof. unfold bcast_heartbeat. apply bcast_heartbeat_with_ctx_AL. Qed.
+
+Lemma send_timeout_now_AL r to r' : send_timeout_now r to = Ok r' -> AL r -> AL r'.
+Proof. unfold send_timeout_now. intros H HI. eapply send_AL; [exact H|na|exact HI]. Qed.
+
+Lemma send_request_snapshot_AL r r' : send_request_snapshot r = Ok r' -> AL r -> AL r'.
+Proof.
+  unfold send_request_snapshot. intros H HI. inv_bind H. destruct x; [|discriminate].
+  eapply send_AL; [exact H|na|exact HI].
+Qed.
+
+Lemma send_vote_requests_AL ids : forall r vm t cm ct tr r',
+  vm <> MsgAppend -> send_vote_requests ids r vm t cm ct tr = Ok r' -> AL r -> AL r'.
+Proof.
+  induction ids as [|id rest IH]; intros r vm t cm ct tr r' Hvm H HI; cbn [send_vote_requests] in H.
+  - inversion H; subst. exact HI.
+  - destruct (id =? r_id r); [eapply IH; eassumption|].
+    inv_bind H. inv_bind H. eapply IH; [exact Hvm|exact H|].
+    eapply send_AL; [exact Hx0| |exact HI]. apply na_ok. destruct tr; cbn; exact Hvm.
+Qed.
+
+Lemma handle_ready_read_index_AL r req i r' om :
+  handle_ready_read_index r req i = Ok (r', om) ->
+  AL r -> AL r' /\ (forall m, om = Some m -> m_type m = MsgReadIndexResp).
+Proof.
+  unfold handle_ready_read_index. intros H HI.
+  destruct ((m_from req =? INVALID_ID) || (m_from req =? r_id r)).
+  - inv_bind H. inversion H; subst. split; [exact HI|intros m E; discriminate].
+  - inversion H; subst. split; [exact HI|]. intros m E. inversion E; reflexivity.
+Qed.
+
+Lemma respond_reads_AL rss : forall r r', respond_reads r rss = Ok r' -> AL r -> AL r'.
+Proof.
+  induction rss as [|rs rest IH]; intros r r' H HI; cbn [respond_reads] in H.
+  - inversion H; subst. exact HI.
+  - inv_bind H. destruct x as [r1 om]. inv_bind H. eapply IH; [exact H|].
+    destruct (handle_ready_read_index_AL _ _ _ _ _ Hx HI) as [H1 Hom].
+    destruct om as [mm|]; [|inversion Hx0; subst; exact H1].
+    eapply send_AL; [exact Hx0| |exact H1]. apply na_ok. rewrite (Hom mm eq_refl). discriminate.
+Qed.
+
+Lemma reset_AL r t r' : reset r t = Ok r' -> AL r -> AL r'.
+Proof. intros H. destruct (reset_msgs_log _ _ _ H) as [A B]. apply AL_same; assumption. Qed.
+
+Lemma handle_transfer_leader_AL r m r' : handle_transfer_leader r m = Ok r' -> AL r -> AL r'.
+Proof.
+  unfold handle_transfer_leader. intros H HI.
+  destruct (get_pr r (m_from m)); [|inversion H; subst; exact HI].
+  destruct (IdSet.mem (m_from m) (learners (conf_of r))); [inversion H; subst; exact HI|].
+  assert (Hcont : forall ra, AL ra ->
+    (if m_from m =? r_id ra then Ok ra else
+       match get_pr (ra <| r_election_elapsed := 0 |> <| r_lead_transferee := Some (m_from m) |>) (m_from m) with
+       | None => Panic site_pr_unwrap
+       | Some pr =>
+           if matched pr =? last_index (r_log (ra <| r_election_elapsed := 0 |> <| r_lead_transferee := Some (m_from m) |>))
+           then send_timeout_now (ra <| r_election_elapsed := 0 |> <| r_lead_transferee := Some (m_from m) |>) (m_from m)
+           else
+             y <- maybe_send_append (ra <| r_election_elapsed := 0 |> <| r_lead_transferee := Some (m_from m) |>) (m_from m) pr true ;;
+             let '(r', pr', _) := y in Ok (put_pr r' (m_from m) pr')
+       end) = Ok r' -> AL r').
+  { intros ra Hra Hc. destruct (m_from m =? r_id ra). { inversion Hc; subst; exact Hra. }
+    assert (Hset : AL (ra <| r_election_elapsed := 0 |> <| r_lead_transferee := Some (m_from m) |>))
+      by exact Hra.
+    match type of Hc with match ?g with _ => _ end = _ => destruct g end; [|discriminate].
+    match type of Hc with (if ?c then _ else _) = _ => destruct c end.
+    - eapply send_timeout_now_AL; eassumption.
+    - inv_bind Hc. destruct x as [[rb pb] bb]. inversion Hc; subst.
+      apply put_pr_AL. eapply maybe_send_append_AL; eassumption. }
+  destruct (r_lead_transferee r) as [last|].
+  - destruct (last =? m_from m); [inversion H; subst; exact HI|].
+    eapply Hcont; [|exact H]. exact HI.
+  - eapply Hcont; [exact HI|exact H].
+Qed.
+
+Lemma handle_heartbeat_response_AL r m r' : handle_heartbeat_response r m = Ok r' -> AL r -> AL r'.
+Proof.
+  unfold handle_heartbeat_response. intros H HI.
+  destruct (get_pr r (m_from m)) as [pr0|]; [|inversion H; subst; exact HI].
+  inv_bind H. inv_bind H.
+  assert (H1 : AL x0).
+  { match type of Hx0 with (if ?c then _ else _) = _ => destruct c end.
+    - inv_bind Hx0. destruct x1 as [[ra pa] ba]. inversion Hx0; subst.
+      apply put_pr_AL. eapply maybe_send_append_AL; eassumption.
+    - inversion Hx0; subst. exact HI. }
+  match type of H with (if ?c then _ else _) = _ => destruct c end; [inversion H; subst; exact H1|].
+  destruct (ro_recv_ack (r_read_only x0) (m_from m) (m_context m)) as [ro' acks].
+  destruct acks as [a|]; [|inversion H; subst; exact H1].
+  match type of H with (if ?c then _ else _) = _ => destruct c end; [|inversion H; subst; exact H1].
+  inv_bind H. destruct x1 as [ro2 rss]. eapply respond_reads_AL; [exact H|]. exact H1.
+Qed.
+
+(* ---- the functions that change the log: AppOK from LI at the intermediate states ---- *)
+Lemma LI_AL rw r : LI rw r -> AppOK r -> AL r.
+Proof. intros H A. split; [eapply LI_LogInv; exact H|exact A]. Qed.
+
+Lemma maybe_commit_msgs r r' b : maybe_commit r = Ok (r', b) -> r_msgs r' = r_msgs r.
+Proof.
+  unfold maybe_commit. intros H. inv_bind H. destruct x as [l' b'].
+  destruct b'; [destruct (get_pr r (r_id r))|]; inversion H; reflexivity.
+Qed.
+
+Lemma become_follower_AppOK r t l r' : become_follower r t l = Ok r' -> AppOK r -> AppOK r'.
+Proof. intros H. apply AppOK_same. exact (proj1 (become_follower_msgs_log _ _ _ _ H)). Qed.
+
+Lemma become_leader_AppOK r r' : become_leader r = Ok r' -> AppOK r -> AppOK r'.
+Proof.
+  intros H. apply AppOK_same.
+  destruct (become_leader_spec _ _ H) as (_ & _ & _ & _ & _ & _ & _ & E & _). exact E.
+Qed.
+
+Lemma become_candidate_msgs r r' : become_candidate r = Ok r' -> r_msgs r' = r_msgs r.
+Proof.
+  unfold become_candidate. intros H. destruct (is_leader r); [discriminate|].
+  inv_bind H. inversion H; subst. cbn. exact (proj1 (reset_msgs_log _ _ _ Hx)).
+Qed.
+
+Lemma become_pre_candidate_msgs r r' : become_pre_candidate r = Ok r' -> r_msgs r' = r_msgs r.
+Proof.
+  unfold become_pre_candidate. intros H. destruct (is_leader r); [discriminate|]. inversion H; reflexivity.
+Qed.
+
+Lemma poll_gen_AppOK rw rc r from v r' res :
+  (forall ra ra', rc ra = Ok ra' -> LI rw ra -> room 1 ra -> AppOK ra -> AppOK ra') ->
+  poll_gen rc r from v = Ok (r', res) -> LI rw r -> room 1 r -> AppOK r -> AppOK r'.
+Proof.
+  unfold poll_gen. intros Hrc H HI Hroom HA.
+  set (r0 := r <| r_prs := (r_prs r) <| t_votes := Quorum.record_vote (t_votes (r_prs r)) from v |> |>) in *.
+  assert (H0 : LI rw r0) by exact HI. assert (Hr0 : room 1 r0) by exact Hroom.
+  assert (A0 : AppOK r0) by exact HA. clearbody r0.
+  destruct (Quorum.tracker_vote_result _ _ _).
+  - inversion H; subst. exact A0.
+  - inv_bind H. inversion H; subst. eapply become_follower_AppOK; eassumption.
+  - destruct (role_eqb (r_state r0) PreCandidate).
+    + inv_bind H. inversion H; subst. eapply Hrc; eassumption.
+    + inv_bind H. inv_bind H. inversion H; subst.
+      refine (proj2 (bcast_append_AL _ _ Hx0 (LI_AL rw _ _ _))).
+      * eapply become_leader_pres; eassumption.
+      * eapply become_leader_AppOK; eassumption.
+Qed.
+
+Lemma campaign_real_AppOK rw tr r r' :
+  campaign_real tr r = Ok r' -> LI rw r -> room 1 r -> AppOK r -> AppOK r'.
+Proof.
+  unfold campaign_real. intros H HI Hroom HA. inv_bind H.
+  pose proof (become_candidate_log _ _ Hx) as El. pose proof (become_candidate_msgs _ _ Hx) as Em.
+  inv_bind H. destruct x0 as [r2 res].
+  assert (H1 : LI rw x) by (eapply LI_same; eassumption).
+  assert (R1 : room 1 x) by (eapply room_same; [|exact Hroom]; rewrite El; reflexivity).
+  assert (A1 : AppOK x) by (eapply AppOK_same; eassumption).
+  assert (H2 : LI rw r2).
+  { eapply poll_gen_pres; [|exact Hx0|exact H1|exact R1]. intros ra ra' Hp; discriminate. }
+  assert (A2 : AppOK r2).
+  { eapply poll_gen_AppOK; [|exact Hx0|exact H1|exact R1|exact A1]. intros ra ra' Hp; discriminate. }
+  destruct res.
+  - inv_bind H. refine (proj2 (send_vote_requests_AL _ _ _ _ _ _ _ _ _ H (LI_AL rw _ H2 A2))). discriminate.
+  - inv_bind H. refine (proj2 (send_vote_requests_AL _ _ _ _ _ _ _ _ _ H (LI_AL rw _ H2 A2))). discriminate.
+  - inversion H; subst. exact A2.
+Qed.
+
+Lemma poll_AppOK rw r from v r' res :
+  poll r from v = Ok (r', res) -> LI rw r -> room 1 r -> AppOK r -> AppOK r'.
+Proof. unfold poll. apply poll_gen_AppOK. intros ra ra'. apply campaign_real_AppOK. Qed.
+
+Lemma campaign_pre_AppOK rw r r' :
+  campaign_pre r = Ok r' -> LI rw r -> room 1 r -> AppOK r -> AppOK r'.
+Proof.
+  unfold campaign_pre. intros H HI Hroom HA. inv_bind H.
+  pose proof (become_pre_candidate_log _ _ Hx) as El. pose proof (become_pre_candidate_msgs _ _ Hx) as Em.
+  inv_bind H. destruct x0 as [r2 res].
+  assert (H1 : LI rw x) by (eapply LI_same; eassumption).
+  assert (R1 : room 1 x) by (eapply room_same; [|exact Hroom]; rewrite El; reflexivity).
+  assert (A1 : AppOK x) by (eapply AppOK_same; eassumption).
+  pose proof (poll_pres rw _ _ _ _ _ Hx0 H1 R1) as H2.
+  pose proof (poll_AppOK rw _ _ _ _ _ Hx0 H1 R1 A1) as A2.
+  destruct res.
+  - inv_bind H. refine (proj2 (send_vote_requests_AL _ _ _ _ _ _ _ _ _ H (LI_AL rw _ H2 A2))). discriminate.
+  - inv_bind H. refine (proj2 (send_vote_requests_AL _ _ _ _ _ _ _ _ _ H (LI_AL rw _ H2 A2))). discriminate.
+  - inversion H; subst. exact A2.
+Qed.
+
+Lemma hup_AppOK rw r tl r' : hup r tl = Ok r' -> LI rw r -> room 1 r -> AppOK r -> AppOK r'.
+Proof.
+  intros H HI Hroom HA. apply hup_spec in H.
+  destruct H as [[_ ->]|[(_ & _ & ->)|[(_ & _ & _ & ->)|(_ & _ & _ & Hc)]]]; try exact HA.
+  unfold hup_campaign in Hc. destruct tl; [eapply campaign_real_AppOK; eassumption|].
+  destruct (r_pre_vote r); [eapply campaign_pre_AppOK|eapply campaign_real_AppOK]; eassumption.
+Qed.
+
+Lemma maybe_commit_by_vote_AppOK r m r' : maybe_commit_by_vote r m = Ok r' -> AppOK r -> AppOK r'.
+Proof. intros H. apply AppOK_same. eapply maybe_commit_by_vote_msgs; exact H. Qed.
+
+Lemma handle_append_entries_AppOK rw r m r' :
+  handle_append_entries r m = Ok r' -> LI rw r -> AppOK r -> AppOK r'.
+Proof.
+  unfold handle_append_entries. intros H HI HA.
+  destruct (negb (r_pending_request_snapshot r =? INVALID_INDEX)).
+  { exact (proj2 (send_request_snapshot_AL _ _ H (LI_AL rw _ HI HA))). }
+  destruct (m_index m <? committed (r_log r)).
+  { eapply send_AppOK; [exact H|na|exact HA]. }
+  inv_bind H. destruct x as [l' res].
+  destruct res as [[a b]|].
+  - eapply send_AppOK; [exact H|na|exact HA].
+  - inv_bind H. destruct x as [hi [ht|]]; [|discriminate].
+    eapply send_AppOK; [exact H|na|exact HA].
+Qed.
+
+Lemma handle_heartbeat_AppOK rw r m r' :
+  handle_heartbeat r m = Ok r' -> LI rw r -> AppOK r -> AppOK r'.
+Proof.
+  unfold handle_heartbeat. intros H HI HA. inv_bind H.
+  destruct (commit_to_pres rw _ _ _ Hx HI) as [A _].
+  match type of H with (if ?c then _ else _) = _ => destruct c end.
+  - match type of H with send_request_snapshot ?ra = _ =>
+      assert (Ha : LI rw ra) by exact A; assert (Hb : AppOK ra) by exact HA end.
+    exact (proj2 (send_request_snapshot_AL _ _ H (LI_AL rw _ Ha Hb))).
+  - eapply send_AppOK; [exact H|na|exact HA].
+Qed.
+
+Lemma post_conf_change_AppOK rw r r' cs :
+  post_conf_change r = Ok (r', cs) -> LI rw r -> AppOK r -> AppOK r'.
+Proof.
+  unfold post_conf_change. intros H HI HA.
+  set (r0 := r <| r_promotable := voters_contains (conf_of r) (r_id r) |>) in *.
+  assert (H0 : LI rw r0) by exact HI. assert (A0 : AppOK r0) by exact HA. clearbody r0.
+  match type of H with (if ?c then _ else _) = _ => destruct c end; [inversion H; subst; exact A0|].
+  match type of H with (if ?c then _ else _) = _ => destruct c end; [inversion H; subst; exact A0|].
+  inv_bind H. destruct x as [r1 b].
+  destruct (maybe_commit_pres rw _ _ _ Hx H0) as [H1 _].
+  assert (A1 : AppOK r1) by (eapply AppOK_same; [eapply maybe_commit_msgs; exact Hx|exact A0]).
+  inv_bind H.
+  assert (L2 : AL x).
+  { destruct b; [eapply bcast_append_AL; [exact Hx0|exact (LI_AL rw _ H1 A1)]|].
+    revert Hx0. intros Hx0. eapply for_each_peer_AL; [|exact Hx0|exact (LI_AL rw _ H1 A1)].
+    intros ra id ra' Hf Ha. cbv beta in Hf. destruct (get_pr ra id); [|discriminate].
+    inv_bind Hf. destruct x0 as [[rb pb] bb]. inversion Hf; subst.
+    apply put_pr_AL. eapply maybe_send_append_AL; eassumption. }
+  inv_bind H.
+  assert (L3 : AL x0).
+  { destruct (ro_last_pending_request_ctx (r_read_only x)); [|inversion Hx1; subst; exact L2].
+    destruct (ro_recv_ack (r_read_only x) (r_id x) l) as [ro' acks].
+    destruct acks as [a|]; [|inversion Hx1; subst; exact L2].
+    match type of Hx1 with (if ?c then _ else _) = _ => destruct c end; [|inversion Hx1; subst; exact L2].
+    inv_bind Hx1. destruct x1 as [ro2 rss]. eapply respond_reads_AL; [exact Hx1|exact L2]. }
+  inversion H; subst. destruct L3 as [_ A3].
+  destruct (r_lead_transferee x0); [|exact A3].
+  destruct (negb (voters_contains (conf_of x0) n)); exact A3.
+Qed.
+
+Lemma restore_AppOK rw r s r' b :
+  restore r s = Ok (r', b) -> s_index s < u64_max -> LI rw r -> AppOK r -> AppOK r'.
+Proof.
+  unfold restore. intros H Hb HI HA.
+  destruct (s_index s <? committed (r_log r)); [inversion H; subst; exact HA|].
+  destruct (negb (role_eqb (r_state r) Follower)).
+  { inv_bind H. inversion H; subst. eapply become_follower_AppOK; eassumption. }
+  match type of H with (if ?c then _ else _) = _ => destruct c end; [inversion H; subst; exact HA|].
+  inv_bind H.
+  match type of H with (if ?c then _ else _) = _ => destruct c end.
+  { inv_bind H. inversion H; subst. exact HA. }
+  inv_bind H.
+  destruct (log_restore_pres rw _ _ _ Hx0 HI Hb) as (A & _).
+  destruct (ConfChange.restore empty_tracker (s_cs s)) as [[c' ids']|e]; [|discriminate].
+  inv_bind H. destruct x1 as [r1 new_cs].
+  match type of Hx1 with post_conf_change ?ra = _ =>
+    assert (Ha : LI rw ra) by exact A; assert (Hm : AppOK ra) by exact HA end.
+  pose proof (post_conf_change_AppOK rw _ _ _ Hx1 Ha Hm) as A1.
+  match type of H with (if ?c then _ else _) = _ => destruct c end; [discriminate|].
+  destruct (get_pr r1 (r_id r1)) as [pr|]; [|discriminate].
+  destruct (next_idx pr =? 0); [discriminate|]. inversion H; subst. exact A1.
+Qed.
+
+Lemma handle_snapshot_AppOK rw r m r' :
+  handle_snapshot r m = Ok r' -> s_index (m_snapshot m) < u64_max -> LI rw r -> AppOK r -> AppOK r'.
+Proof.
+  unfold handle_snapshot. intros H Hb HI HA. inv_bind H. destruct x as [r1 ok].
+  pose proof (restore_AppOK rw _ _ _ _ Hx Hb HI HA) as A1.
+  destruct ok; (eapply send_AppOK; [exact H|na|exact A1]).
+Qed.
+
+Lemma handle_append_response_AppOK rw r m r' :
+  handle_append_response r m = Ok r' -> LI rw r -> AppOK r -> AppOK r'.
+Proof.
+  unfold handle_append_response. intros H HI HA. inv_bind H. clear Hx.
+  destruct (get_pr r (m_from m)) as [pr|]; [|inversion H; subst; exact HA].
+  destruct (m_reject m).
+  { destruct (maybe_decr_to _ _ _ _) as [pr1 dec]. destruct dec.
+    - match type of H with send_append_to ?ra _ = _ =>
+        assert (Ha : AL ra) by exact (LI_AL rw _ HI HA) end.
+      exact (proj2 (send_append_to_AL _ _ _ H Ha)).
+    - inversion H; subst. exact HA. }
+  destruct (maybe_update _ _) as [pr1 upd]. destruct upd; cbn [negb] in H.
+  2:{ inversion H; subst. exact HA. }
+  inv_bind H. clear Hx. inv_bind H. destruct x1 as [r1 cmt].
+  match type of Hx with maybe_commit ?ra = _ =>
+    assert (Ha : LI rw ra) by exact HI; assert (Hm : AppOK ra) by exact HA end.
+  destruct (maybe_commit_pres rw _ _ _ Hx Ha) as [H1 _].
+  assert (A1 : AppOK r1) by (eapply AppOK_same; [eapply maybe_commit_msgs; exact Hx|exact Hm]).
+  pose proof (LI_AL rw _ H1 A1) as L1.
+  inv_bind H. inv_bind H.
+  assert (L2 : AL x1).
+  { destruct cmt.
+    - destruct (should_bcast_commit r1); [eapply bcast_append_AL; eassumption|].
+      inversion Hx0; subst; exact L1.
+    - destruct (is_paused _); [eapply send_append_to_AL; eassumption|].
+      inversion Hx0; subst; exact L1. }
+  pose proof (send_append_aggressively_AL _ _ _ Hx1 L2) as L3.
+  destruct (r_lead_transferee x2); [|inversion H; subst; exact (proj2 L3)].
+  destruct (n =? m_from m); [|inversion H; subst; exact (proj2 L3)].
+  destruct (get_pr x2 (m_from m)); [|discriminate].
+  destruct (matched p =? last_index (r_log x2)); [exact (proj2 (send_timeout_now_AL _ _ _ H L3))|].
+  inversion H; subst; exact (proj2 L3).
+Qed.
+
+Lemma step_leader_AppOK rw r m r' c :
+  step_leader r m = Ok (r', c) -> msg_wf (last_index (r_log r)) m -> LI rw r -> AppOK r -> AppOK r'.
+Proof.
+  unfold step_leader. intros H (_ & Wp & _ & _) HI HA.
+  pose proof (LI_AL rw _ HI HA) as L0.
+  destruct (m_type m =? MsgBeat).
+  { inv_bind H. inversion H; subst. exact (proj2 (bcast_heartbeat_AL _ _ Hx L0)). }
+  destruct (m_type m =? MsgCheckQuorum).
+  { destruct (quorum_recently_active (r_prs r) (r_id r)) as [prs' active] eqn:Eq.
+    destruct active; cbn [negb] in H.
+    - inversion H; subst. exact HA.
+    - inv_bind H. inversion H; subst. eapply become_follower_AppOK; [exact Hx|exact HA]. }
+  destruct (m_type m =? MsgPropose) eqn:Ep.
+  { apply N.eqb_eq in Ep. specialize (Wp Ep).
+    destruct (m_entries m) as [|e0 es] eqn:Ee; [discriminate|]. rewrite <- Ee in *.
+    destruct (get_pr r (r_id r)); [|inversion H; subst; exact HA].
+    destruct (r_lead_transferee r); [inversion H; subst; exact HA|].
+    dfilter H. pose proof (filter_frame_fields _ _ _ _ _ _ _ F) as (El & _ & _ & _ & _ & _ & Em).
+    pose proof (filter_length _ _ _ _ _ _ _ F) as Hlen.
+    assert (H1 : LI rw a) by (eapply LI_same; eassumption).
+    assert (A1 : AppOK a) by (eapply AppOK_same; eassumption).
+    destruct c0; cbn [negb] in H; [|inversion H; subst; exact A1].
+    inv_bind H. destruct x as [r2 appended].
+    destruct (append_entry_pres rw _ _ _ _ Hx H1) as (H2 & _).
+    { unfold room. rewrite El, Hlen. exact Wp. }
+    destruct (append_entry_spec _ _ _ _ Hx) as (_ & Em2 & _).
+    assert (A2 : AppOK r2) by (eapply AppOK_same; eassumption).
+    destruct appended; cbn [negb] in H.
+    - inv_bind H. inversion H; subst. exact (proj2 (bcast_append_AL _ _ Hx0 (LI_AL rw _ H2 A2))).
+    - inversion H; subst. exact A2. }
+  destruct (m_type m =? MsgReadIndex).
+  { inv_bind H. destruct (negb x); [inversion H; subst; exact HA|].
+    assert (Hans : forall ra c',
+      (x0 <- handle_ready_read_index r m (committed (r_log r)) ;;
+       let '(r1, om) := x0 in
+       r2 <- match om with Some mm => send r1 mm | None => Ok r1 end ;; Ok (r2, E_OK)) = Ok (ra, c') ->
+      AppOK ra).
+    { intros ra c' Ha. inv_bind Ha. destruct x0 as [r1 om]. inv_bind Ha. inversion Ha; subst.
+      destruct (handle_ready_read_index_AL _ _ _ _ _ Hx0 L0) as [[_ A1] Hom].
+      destruct om as [mm|]; [|inversion Hx1; subst; exact A1].
+      eapply send_AppOK; [exact Hx1| |exact A1]. apply na_ok. rewrite (Hom mm eq_refl). discriminate. }
+    match type of H with (if ?c then _ else _) = _ => destruct c end; [eapply Hans; exact H|].
+    destruct (ro_option (r_read_only r) =? 0); [|eapply Hans; exact H].
+    inv_bind H. inv_bind H. inv_bind H. inversion H; subst.
+    match type of Hx2 with bcast_heartbeat_with_ctx ?ra _ = _ => assert (La : AL ra) by exact L0 end.
+    exact (proj2 (bcast_heartbeat_with_ctx_AL _ _ _ Hx2 La)). }
+  destruct (m_type m =? MsgAppendResponse).
+  { inv_bind H. inversion H; subst. eapply handle_append_response_AppOK; eassumption. }
+  destruct (m_type m =? MsgHeartbeatResponse).
+  { inv_bind H. inversion H; subst. exact (proj2 (handle_heartbeat_response_AL _ _ _ Hx L0)). }
+  destruct (m_type m =? MsgSnapStatus).
+  { inv_bind H. inversion H; subst. eapply AppOK_same; [|exact HA].
+    unfold handle_snapshot_status in Hx. destruct (get_pr r (m_from m)); [|inversion Hx; reflexivity].
+    destruct (negb _); inversion Hx; reflexivity. }
+  destruct (m_type m =? MsgUnreachable).
+  { inv_bind H. inversion H; subst. eapply AppOK_same; [|exact HA].
+    unfold handle_unreachable in Hx. destruct (get_pr r (m_from m)); inversion Hx; [|reflexivity].
+    destruct (pstate_eqb _ _); reflexivity. }
+  destruct (m_type m =? MsgTransferLeader).
+  { inv_bind H. inversion H; subst. exact (proj2 (handle_transfer_leader_AL _ _ _ Hx L0)). }
+  inversion H; subst. exact HA.
+Qed.
+
+Lemma step_candidate_AppOK rw r m r' c :
+  step_candidate r m = Ok (r', c) -> msg_wf (last_index (r_log r)) m -> LI rw r -> AppOK r -> AppOK r'.
+Proof.
+  unfold step_candidate. intros H (We & _ & Wa & Ws) HI HA.
+  destruct (m_type m =? MsgPropose). { inversion H; subst. exact HA. }
+  match type of H with (if ?c then _ else _) = _ => destruct c eqn:E1 end.
+  { destruct (negb (r_term r =? m_term m)); [discriminate|].
+    inv_bind H. destruct (become_follower_pres rw _ _ _ _ Hx HI) as [H1 L1].
+    pose proof (become_follower_AppOK _ _ _ _ Hx HA) as A1.
+    inv_bind H. inversion H; subst.
+    destruct (m_type m =? MsgAppend) eqn:Ea; [eapply handle_append_entries_AppOK; eassumption|].
+    destruct (m_type m =? MsgHeartbeat) eqn:Eh; [eapply handle_heartbeat_AppOK; eassumption|].
+    cbn [orb] in E1. apply N.eqb_eq in E1.
+    eapply handle_snapshot_AppOK; [exact Hx0|exact (Ws E1)|exact H1|exact A1]. }
+  match type of H with (if ?c then _ else _) = _ => destruct c eqn:E2 end.
+  2:{ inversion H; subst. exact HA. }
+  match type of H with (if ?c then _ else _) = _ => destruct c end.
+  { inversion H; subst. exact HA. }
+  inv_bind H. destruct x as [r1 res]. inv_bind H. inversion H; subst. cbn [fst] in Hx0.
+  specialize (We (elect_type_vote_resp _ E2)).
+  eapply maybe_commit_by_vote_AppOK; [exact Hx0|]. eapply poll_AppOK; eassumption.
+Qed.
+
+Lemma step_follower_AppOK rw r m r' c :
+  step_follower r m = Ok (r', c) -> msg_wf (last_index (r_log r)) m -> LI rw r -> AppOK r -> AppOK r'.
+Proof.
+  unfold step_follower. intros H (We & _ & Wa & Ws) HI HA.
+  destruct (m_type m =? MsgPropose) eqn:E1.
+  { destruct (r_leader_id r =? INVALID_ID); [inversion H; subst; exact HA|].
+    destruct (r_disable_proposal_forwarding r); [inversion H; subst; exact HA|].
+    inv_bind H. inversion H; subst. eapply send_AppOK; [exact Hx| |exact HA].
+    apply na_ok. cbn. apply N.eqb_eq in E1. rewrite E1. discriminate. }
+  destruct (m_type m =? MsgAppend) eqn:Ea.
+  { inv_bind H. inversion H; subst. eapply handle_append_entries_AppOK; [exact Hx|exact HI|exact HA]. }
+  destruct (m_type m =? MsgHeartbeat).
+  { inv_bind H. inversion H; subst. eapply handle_heartbeat_AppOK; [exact Hx|exact HI|exact HA]. }
+  destruct (m_type m =? MsgSnapshot) eqn:Es.
+  { apply N.eqb_eq in Es. inv_bind H. inversion H; subst.
+    eapply handle_snapshot_AppOK; [exact Hx|exact (Ws Es)|exact HI|exact HA]. }
+  destruct (m_type m =? MsgTransferLeader) eqn:Et.
+  { destruct (r_leader_id r =? INVALID_ID); [inversion H; subst; exact HA|].
+    inv_bind H. inversion H; subst. eapply send_AppOK; [exact Hx| |exact HA].
+    apply na_ok. cbn. apply N.eqb_eq in Et. rewrite Et. discriminate. }
+  destruct (m_type m =? MsgTimeoutNow) eqn:Etn.
+  { destruct (r_promotable r); [|inversion H; subst; exact HA].
+    inv_bind H. inversion H; subst. eapply hup_AppOK; [exact Hx|exact HI| |exact HA].
+    apply We. unfold elect_type. rewrite Etn. rewrite ?orb_true_r. reflexivity. }
+  destruct (m_type m =? MsgReadIndex) eqn:Er.
+  { destruct (r_leader_id r =? INVALID_ID); [inversion H; subst; exact HA|].
+    inv_bind H. inversion H; subst. eapply send_AppOK; [exact Hx| |exact HA].
+    apply na_ok. cbn. apply N.eqb_eq in Er. rewrite Er. discriminate. }
+  destruct (m_type m =? MsgReadIndexResp).
+  { destruct (m_entries m) as [|e [|e2 es]]; try (inversion H; subst; exact HA).
+    inv_bind H. inversion H; subst. exact HA. }
+  inversion H; subst. exact HA.
+Qed.
+
+Lemma vote_resp_not_append t rt : vote_resp_msg_type t = Ok rt -> rt <> MsgAppend.
+Proof.
+  unfold vote_resp_msg_type. destruct (t =? MsgRequestVote); [intros H; inversion H; discriminate|].
+  destruct (t =? MsgRequestPreVote); [intros H; inversion H; discriminate|discriminate].
+Qed.
+
+Lemma step_body_AppOK rw r m r' c :
+  step_body r m = Ok (r', c) -> msg_wf (last_index (r_log r)) m -> LI rw r -> AppOK r -> AppOK r'.
+Proof.
+  unfold step_body. intros H W HI HA.
+  destruct (m_type m =? MsgHup) eqn:Eh.
+  { inv_bind H. inversion H; subst. eapply hup_AppOK; [exact Hx|exact HI| |exact HA].
+    apply (proj1 W). unfold elect_type. rewrite Eh. reflexivity. }
+  match type of H with (if ?c then _ else _) = _ => destruct c end.
+  { inv_bind H. inv_bind H. apply vote_resp_not_append in Hx0.
+    match type of H with (if ?c then _ else _) = _ => destruct c end.
+    - inv_bind H.
+      assert (A1 : AppOK x1) by (eapply send_AppOK; [exact Hx1|apply na_ok; cbn; exact Hx0|exact HA]).
+      destruct (m_type m =? MsgRequestVote); inversion H; subst; exact A1.
+    - inv_bind H. inv_bind H. inv_bind H. inversion H; subst.
+      eapply maybe_commit_by_vote_AppOK; [exact Hx3|].
+      eapply send_AppOK; [exact Hx2|apply na_ok; cbn; exact Hx0|exact HA]. }
+  unfold step_role in H. destruct (r_state r).
+  - eapply step_follower_AppOK; eassumption.
+  - eapply step_candidate_AppOK; eassumption.
+  - eapply step_leader_AppOK; eassumption.
+  - eapply step_candidate_AppOK; eassumption.
+Qed.
+
+Theorem step_AppOK rw r m r' c :
+  step r m = Ok (r', c) -> msg_wf (last_index (r_log r)) m -> LI rw r -> AppOK r -> AppOK r'.
+Proof.
+  intros H W HI HA. rewrite step_decompose in H. inv_bind H.
+  assert (Hpro : match x with
+                 | inl (r1, _) => AppOK r1
+                 | inr r1 => AppOK r1 /\ LI rw r1 /\ last_index (r_log r1) = last_index (r_log r)
+                 end).
+  { clear H. unfold step_prologue in Hx.
+    destruct (m_term m =? 0); [inversion Hx; subst; auto|].
+    destruct (r_term r <? m_term m).
+    - match type of Hx with (if ?c then _ else _) = _ => destruct c end; [inversion Hx; subst; exact HA|].
+      match type of Hx with (if ?c then _ else _) = _ => destruct c end; [inversion Hx; subst; auto|].
+      match type of Hx with (if ?c then _ else _) = _ => destruct c end;
+        inv_bind Hx; inversion Hx; subst;
+        (split; [eapply become_follower_AppOK; eassumption|eapply become_follower_pres; eassumption]).
+    - destruct (m_term m <? r_term r); [|inversion Hx; subst; auto].
+      match type of Hx with (if ?c then _ else _) = _ => destruct c end.
+      + inv_bind Hx. inversion Hx; subst. eapply send_AppOK; [exact Hx0|na|exact HA].
+      + match type of Hx with (if ?c then _ else _) = _ => destruct c end.
+        * inv_bind Hx. inversion Hx; subst. eapply send_AppOK; [exact Hx0|na|exact HA].
+        * inversion Hx; subst. exact HA. }
+  destruct x as [[r1 c1]|r1].
+  - inversion H; subst. exact Hpro.
+  - destruct Hpro as (A1 & H1 & L1). eapply step_body_AppOK; [exact H| |exact H1|exact A1].
+    rewrite L1. exact W.
+Qed.
+
+Theorem tick_AppOK rw r r' b : tick r = Ok (r', b) -> LI rw r -> room 1 r -> AppOK r -> AppOK r'.
+Proof.
+  unfold tick. intros H HI Hroom HA.
+  assert (Hel : forall ra b', tick_election r = Ok (ra, b') -> AppOK ra).
+  { unfold tick_election. intros ra b' He.
+    match type of He with (if ?c then _ else _) = _ => destruct c end; [inversion He; subst; exact HA|].
+    inv_bind He. inversion He; subst. destruct x as [r1 c]. cbn [fst].
+    eapply step_AppOK; [exact Hx| |exact HI|exact HA].
+    unfold msg_wf. cbn. splits; try (intros E; discriminate). intros _. exact Hroom. }
+  assert (Hhb : forall ra b', tick_heartbeat r = Ok (ra, b') -> AppOK ra).
+  { unfold tick_heartbeat. intros ra b' He. inv_bind He. destruct x as [r1 hr].
+    assert (H1 : LI rw r1 /\ AppOK r1).
+    { match type of Hx with (if ?c then _ else _) = _ => destruct c end; [|inversion Hx; subst; split; assumption].
+      inv_bind Hx. destruct x as [rb hb]. inversion Hx; subst.
+      assert (Hb : LI rw rb /\ AppOK rb).
+      { destruct (r_check_quorum _); [|inversion Hx0; subst; split; assumption].
+        inv_bind Hx0. inversion Hx0; subst. destruct x as [rc cc]. cbn [fst].
+        assert (Wc : msg_wf (last_index (r_log (r <| r_heartbeat_elapsed := r_heartbeat_elapsed r + 1 |>
+               <| r_election_elapsed := r_election_elapsed r + 1 |> <| r_election_elapsed := 0 |>)))
+               (new_message INVALID_ID MsgCheckQuorum (Some (r_id (r <| r_heartbeat_elapsed := r_heartbeat_elapsed r + 1 |>
+               <| r_election_elapsed := r_election_elapsed r + 1 |> <| r_election_elapsed := 0 |>))))).
+        { apply msg_wf_plain; cbn; [reflexivity|discriminate|discriminate|discriminate]. }
+        split; [eapply step_pres; [exact Hx1|exact Wc|exact HI]|eapply step_AppOK; [exact Hx1|exact Wc|exact HI|exact HA]]. }
+      match goal with |- LI rw (if ?c then _ else _) /\ _ => destruct c end; exact Hb. }
+    destruct H1 as [H1 A1].
+    destruct (negb (is_leader r1)); [inversion He; subst; exact A1|].
+    match type of He with (if ?c then _ else _) = _ => destruct c end; [|inversion He; subst; exact A1].
+    inv_bind He. inversion He; subst. destruct x as [rb cb]. cbn [fst].
+    eapply step_AppOK; [exact Hx0| |exact H1|exact A1].
+    apply msg_wf_plain; cbn; [reflexivity|discriminate|discriminate|discriminate]. }
+  destruct (r_state r); first [eapply Hel; exact H|eapply Hhb; exact H].
+Qed.
+
+Theorem on_persist_entries_AppOK rw r i t r' :
+  on_persist_entries r i t = Ok r' -> LI rw r -> AppOK r -> AppOK r'.
+Proof.
+  unfold on_persist_entries. intros H HI HA. inv_bind H. destruct x as [l' upd].
+  destruct (maybe_persist_pres rw _ _ _ _ _ Hx HI) as [A B].
+  match type of H with (if ?c then _ else _) = _ => destruct c end; [|inversion H; subst; exact HA].
+  match type of H with (match ?g with _ => _ end) = _ => destruct g as [pr|] end;
+    [|inversion H; subst; exact HA].
+  destruct (maybe_update pr i) as [pr' u]. destruct u; [|inversion H; subst; exact HA].
+  inv_bind H. destruct x as [r1 c].
+  match type of Hx0 with maybe_commit ?ra = _ =>
+    assert (Ha : LI rw ra) by exact A; assert (Hm : AppOK ra) by exact HA end.
+  destruct (maybe_commit_pres rw _ _ _ Hx0 Ha) as [H1 _].
+  assert (A1 : AppOK r1) by (eapply AppOK_same; [eapply maybe_commit_msgs; exact Hx0|exact Hm]).
+  match type of H with (if ?c then _ else _) = _ => destruct c end.
+  - exact (proj2 (bcast_append_AL _ _ H (LI_AL rw _ H1 A1))).
+  - inversion H; subst. exact A1.
+Qed.
+
+Theorem commit_apply_AppOK r a r' : commit_apply r a = Ok r' -> AppOK r -> AppOK r'.
+Proof.
+  unfold commit_apply, commit_apply_internal. cbn [negb]. intros H. apply AppOK_same.
+  inv_bind H.
+  match type of H with (if ?c then _ else _) = _ => destruct c end; [|inversion H; reflexivity].
+  inv_bind H. destruct x0 as [r1 ok]. destruct ok; cbn [negb] in H; [|discriminate].
+  inversion H; subst. cbn. destruct (append_entry_spec _ _ _ _ Hx0) as (_ & Em & _). exact Em.
+Qed.
+
+Theorem raft_apply_conf_change_AppOK rw r cc r' ocs :
+  raft_apply_conf_change r cc = Ok (r', ocs) -> LI rw r -> AppOK r -> AppOK r'.
+Proof.
+  unfold raft_apply_conf_change. intros H HI HA.
+  match type of H with (match ?g with _ => _ end) = _ => destruct g as [[c' chs]|e] end.
+  - inv_bind H. destruct x as [r1 cs]. inversion H; subst. cbn [fst].
+    match type of Hx with post_conf_change ?ra = _ =>
+      assert (Ha : LI rw ra) by exact HI; assert (Hm : AppOK ra) by exact HA end.
+    exact (post_conf_change_AppOK rw _ _ _ Hx Ha Hm).
+  - inversion H; subst. exact HA.
+Qed.
+
+(* ---- RawNode: the queue is emptied by ready / light ready, otherwise as above ---- *)
+Definition NAppOK (n : rawnode) : Prop := AppOK (rn_raft n).
+
+Theorem exec_AppOK rw n o n' ot :
+  exec n o = Ok (n', ot) -> op_wf n o -> NLI rw n -> NAppOK n -> NAppOK n'.
+Proof.
+  intros H W HI HA. unfold NAppOK in *.
+  assert (Hglr : forall na nb lr, gen_light_ready na = Ok (nb, lr) -> AppOK (rn_raft nb)).
+  { intros na nb lr Hg. destruct (gen_light_ready_spec _ _ _ Hg) as (oe & k & _ & _ & -> & _).
+    unfold AppOK. cbn. constructor. }
+  assert (Hstep : forall m x, step (rn_raft n) m = Ok x -> msg_wf (nlast n) m -> AppOK (fst x)).
+  { intros m [r1 c1] Hs Wm. cbn [fst]. eapply step_AppOK; eassumption. }
+  assert (Hplain : forall m x, step (rn_raft n) m = Ok x ->
+            elect_type (m_type m) = false -> m_type m <> MsgPropose -> m_type m <> MsgAppend ->
+            m_type m <> MsgSnapshot -> AppOK (fst x)).
+  { intros m x Hs A B C0 D. eapply Hstep; [exact Hs|apply msg_wf_plain; assumption]. }
+  destruct o; cbn [exec op_wf] in H, W; unfold quiet, quiet1 in H;
+    try (inv_bind H; inversion H; subst; clear H).
+  - (* step *)
+    unfold rn_step, lift2 in Hx. destruct (is_local_msg (m_type m)); [inversion Hx; subst; exact HA|].
+    match type of Hx with (if ?c then _ else _) = _ => destruct c end; [|inversion Hx; subst; exact HA].
+    inv_bind Hx. inversion Hx; subst. cbn. eapply Hstep; eassumption.
+  - unfold rn_tick in Hx. inv_bind Hx. destruct x0 as [r1 b1]. inversion Hx; subst. cbn.
+    eapply tick_AppOK; eassumption.
+  - unfold rn_campaign, lift2 in Hx. inv_bind Hx. inversion Hx; subst. cbn.
+    eapply Hstep; [exact Hx0|]. unfold msg_wf. cbn. splits; try (intros E; discriminate). intros _. exact W.
+  - unfold rn_propose, lift2 in Hx. inv_bind Hx. inversion Hx; subst. cbn.
+    eapply Hstep; [exact Hx0|]. unfold msg_wf. cbn. splits; try (intros E; discriminate). intros _. exact W.
+  - unfold rn_propose_conf_change, lift2 in Hx. inv_bind Hx. inversion Hx; subst. cbn.
+    eapply Hstep; [exact Hx0|]. unfold msg_wf. cbn. splits; try (intros E; discriminate). intros _. exact W.
+  - unfold rn_apply_conf_change in Hx. inv_bind Hx. destruct x0 as [r1 o1]. inversion Hx; subst. cbn.
+    eapply raft_apply_conf_change_AppOK; eassumption.
+  - unfold rn_ping, lift, ping in Hx. inv_bind Hx. inversion Hx; subst. cbn.
+    destruct (is_leader (rn_raft n)); [|inversion Hx0; subst; exact HA].
+    exact (proj2 (bcast_heartbeat_AL _ _ Hx0 (LI_AL rw _ HI HA))).
+  - (* ready *)
+    destruct x as [n1 rd]. cbn [fst].
+    destruct (ready_entries_are_unstable _ _ _ Hx) as (_ & _ & _ & _ & _ & _ & _ & _ & _ & _ & _ & _ & _ & _ & E).
+    unfold AppOK. rewrite E. constructor.
+  - (* advance *)
+    destruct x as [n1 lr]. cbn [fst]. unfold rn_advance in Hx. inv_bind Hx. destruct x as [n2 lr2].
+    cbn [fst snd] in Hx. inv_bind Hx. inversion Hx; subst.
+    destruct (rn_advance_append_inv _ _ _ _ Hx0) as (m1 & m2 & m3 & lr3 & _ & _ & H3 & _ & _ & _ & _ & Hn' & _).
+    unfold rn_advance_apply_to, lift in Hx1. inv_bind Hx1. inversion Hx1; subst. cbn.
+    eapply commit_apply_AppOK; [exact Hx2|]. cbn. eapply Hglr; exact H3.
+  - destruct x as [n1 lr]. cbn [fst].
+    destruct (rn_advance_append_inv _ _ _ _ Hx) as (m1 & m2 & m3 & lr3 & _ & _ & H3 & _ & _ & _ & _ & Hn' & _).
+    subst n1. cbn. eapply Hglr; exact H3.
+  - unfold rn_advance_append_async in Hx. destruct (commit_ready_stabilises _ _ _ Hx) as (_ & _ & _ & ->).
+    cbn. destruct (commit_prev_frame n rd) as (F1 & _). exact HA.
+  - (* on_persist_ready *)
+    unfold rn_on_persist_ready in Hx. unfold persist_pre, nlog in W.
+    destruct (fold_records (rn_records n) number 0 0 0) as [[[recs i] t] si]. cbn [snd] in W.
+    apply bind_ok in Hx. destruct Hx as (ra & Ha & Hx). apply bind_ok in Hx. destruct Hx as (rb & Hb & Hx).
+    inversion Hx; subst. cbn.
+    assert (H1 : LI rw ra /\ AppOK ra).
+    { destruct (negb (si =? 0)); [|inversion Ha; subst ra; split; [exact HI|exact HA]].
+      split.
+      - exact (proj1 (on_persist_snap_pres rw _ _ _ Ha HI W)).
+      - unfold on_persist_snap in Ha. inv_bind Ha. inversion Ha; subst ra. exact HA. }
+    destruct H1 as [H1 A1].
+    destruct (negb (i =? 0)); [|inversion Hb; subst rb; exact A1].
+    eapply on_persist_entries_AppOK; eassumption.
+  - unfold rn_advance_apply, rn_advance_apply_to, lift in Hx. inv_bind Hx. inversion Hx; subst. cbn.
+    eapply commit_apply_AppOK; eassumption.
+  - unfold rn_advance_apply_to, lift in Hx. inv_bind Hx. inversion Hx; subst. cbn.
+    eapply commit_apply_AppOK; eassumption.
+  - unfold rn_report_unreachable in Hx. inv_bind Hx. inversion Hx; subst. cbn.
+    eapply Hplain; [exact Hx0| | | |]; cbn; (reflexivity || discriminate).
+  - unfold rn_report_snapshot in Hx. inv_bind Hx. inversion Hx; subst. cbn.
+    eapply Hplain; [exact Hx0| | | |]; cbn; (reflexivity || discriminate).
+  - unfold rn_request_snapshot, lift2, request_snapshot in Hx. inv_bind Hx. inversion Hx; subst. cbn.
+    destruct (is_leader (rn_raft n)); [inversion Hx0; subst; exact HA|].
+    destruct (r_leader_id (rn_raft n) =? INVALID_ID); [inversion Hx0; subst; exact HA|].
+    match type of Hx0 with (if ?c then _ else _) = _ => destruct c end; [inversion Hx0; subst; exact HA|].
+    destruct (negb _); [inversion Hx0; subst; exact HA|].
+    inv_bind Hx0. destruct x; [|discriminate].
+    destruct (r_term (rn_raft n) =? a); [|inversion Hx0; subst; exact HA].
+    inv_bind Hx0. inversion Hx0; subst. cbn.
+    match type of Hx2 with send_request_snapshot ?ra = _ =>
+      assert (La : AL ra) by exact (LI_AL rw _ HI HA) end.
+    exact (proj2 (send_request_snapshot_AL _ _ Hx2 La)).
+  - unfold rn_transfer_leader in Hx. inv_bind Hx. inversion Hx; subst. cbn.
+    eapply Hplain; [exact Hx0| | | |]; cbn; (reflexivity || discriminate).
+  - unfold rn_read_index in Hx. inv_bind Hx. inversion Hx; subst. cbn.
+    eapply Hplain; [exact Hx0| | | |]; cbn; (reflexivity || discriminate).
+  - inversion H; subst. exact HA.
+Qed.
+
+Theorem wrun_AppOK rw n n' : wrun n n' -> NLI rw n -> NAppOK n -> NAppOK n'.
+Proof.
+  intros R. induction R as [|n o n1 ot n' W E R IH]; intros HI HA; [exact HA|].
+  apply IH; [eapply exec_pres; eassumption|eapply exec_AppOK; eassumption].
+Qed.
+
+Lemma raft_new_msgs c st sa dr r : raft_new c st sa dr = Ok (inr r) -> r_msgs r = [].
+Proof.
+  unfold raft_new. intros H.
+  destruct (negb (cfg_validate c)); [discriminate|].
+  apply bind_ok in H. destruct H as (l & Hl & H).
+  destruct (ConfChange.restore empty_tracker (cs st)) as [[c' ids']|e]; [|discriminate].
+  rewrite post_conf_change_nonleader in H by reflexivity. cbn [bind] in H.
+  match type of H with (if ?c then _ else _) = _ => destruct c end; [discriminate|].
+  apply bind_ok in H. destruct H as (r3 & H3 & H).
+  apply bind_ok in H. destruct H as (r4 & H4 & H).
+  apply bind_ok in H. destruct H as (r5 & H5 & H).
+  apply bind_ok in H. destruct H as (lt & _ & H). inversion H; subst r.
+  rewrite (proj1 (become_follower_msgs_log _ _ _ _ H5)).
+  assert (E3 : r_msgs r3 = []).
+  { destruct (hs_eqb (hs st) hs_default); [inversion H3; reflexivity|].
+    unfold load_state in H3.
+    match type of H3 with (if ?c then _ else _) = _ => destruct c end; [discriminate|].
+    inversion H3; reflexivity. }
+  assert (E4 : r_msgs r4 = r_msgs r3).
+  { destruct (0 <? c_applied c); [|inversion H4; reflexivity].
+    unfold commit_apply_internal in H4. cbn [negb] in H4.
+    destruct (c_applied c =? 0); [discriminate|]. cbn [bind] in H4.
+    match type of H4 with (if ?c then _ else _) = _ => destruct c end; [|inversion H4; reflexivity].
+    apply bind_ok in H4. destruct H4 as ([r1 ok] & Ha & H4). destruct ok; cbn [negb] in H4; [|discriminate].
+    inversion H4; subst r4. cbn. destruct (append_entry_spec _ _ _ _ Ha) as (_ & Em & _). exact Em. }
+  congruence.
+Qed.
+
+(* every MsgAppend a node ever holds in its outbound queue (hence every one a Ready or
+   LightReady hands to the application) is a contiguous batch *)
+Theorem append_msgs_contiguous_from_new c st sa dr n0 n m :
+  rn_new c st sa dr = Ok (inr n0) -> SInv st -> trig_log st = false -> wrun n0 n ->
+  In m (r_msgs (rn_raft n)) -> m_type m = MsgAppend ->
+  contiguous_from (m_index m + 1) (m_entries m).
+Proof.
+  intros H Hs Hq R Hin Ht.
+  destruct (rn_new_pres _ _ _ _ _ H Hs Hq) as (A & _).
+  assert (A0 : NAppOK n0).
+  { unfold NAppOK, AppOK. unfold rn_new in H. destruct (c_id c =? 0); [discriminate|].
+    inv_bind H. destruct x as [e|r]; inversion H; subst. cbn.
+    rewrite (raft_new_msgs _ _ _ _ _ Hx). constructor. }
+  pose proof (wrun_AppOK true _ _ R A A0) as HA. unfold NAppOK, AppOK in HA.
+  rewrite Forall_forall in HA. exact (HA m Hin Ht).
+Qed.
